@@ -81,6 +81,13 @@ def _fixed_rounds_at_last_decimal(ctx, rep):
 
 
 def check(ctx, rep):
+    # an integer is promoted before formatting with to_float(), which leaves a double a double: the digits of a double field
+    # come from the double
+    nf_ = ctx.fn('pcbasic/basic/devices/formatter.py:NumberField.format')
+    prom = [a for a in own_nodes(nf_) if isinstance(a, ast.Assign) and norm(a.targets[0]) == 'value' and isinstance(a.value, ast.Call)
+            and isinstance(a.value.func, ast.Attribute) and a.value.func.attr.startswith('to_') and norm(a.value.func.value) == 'value']
+    rep.ob('format.double-keeps-its-precision', 'NumberField.format promotes with value.to_float()', [norm(a.value) for a in prom] == ['value.to_float()'],
+           repr([norm(a.value) for a in prom]) + ': a double is rounded to single before it is formatted', ctx.where(nf_))
     # the position of the point is taken from the digits actually produced: rounding can add a leading digit (9.96 -> 10.0), so the
     # count of digits before the point is computed from the digit string made AFTER the last conversion
     fx_ = ctx.fn('pcbasic/basic/values/numbers.py:Float.to_str_fixed')
@@ -204,6 +211,8 @@ def variants(ctx):
         return lambda tree: f(mu.find_def(tree, f_name))
 
     return [
+        mu.Variant('doubles-formatted-as-singles', 'break', 'pcbasic/basic/devices/formatter.py',
+                   lambda tree: mu.replace_expr(mu.find_def(tree, 'NumberField.format'), mu.text_is('value.to_float()'), 'value.to_single()'), expect='format.double-keeps-its-precision'),
         mu.Variant('leading-group-always-added', 'break', 'pcbasic/basic/values/numbers.py',
                    lambda tree: _always_lead(mu.find_def(tree, 'Float._group_thousands')), expect='commas.no-empty-leading-group'),
         mu.Variant('fixed-notation-asks-for-zero-digits', 'break', 'pcbasic/basic/values/numbers.py',
